@@ -44,6 +44,54 @@ def intended(line, segs):
     return d.get("c1"), d.get("c2"), d.get("c3")
 
 
+def reference_normal_form(op):
+    """C09's normal-form table as a 15-line reference: $v -> v, memory k(a,b,c) -> [a+b*c+k], (a,b,c) -> [a+b*c],
+    k(,b,c) -> [+b*c+k], k(a) -> [a+k], (a) -> [a], k(a,b) -> [a+b+k]; text after ')' counts as displacement;
+    everything else unchanged"""
+    m = re.fullmatch(r"([^()]*)\(([^()]*)\)([^()]*)", op)
+    if m and not (op.startswith("%st(")):
+        pre, inside, post = m.groups()
+        k = pre + post
+        parts = inside.split(",")
+        if len(parts) == 3:
+            core = f"{parts[0]}+{parts[1]}*{parts[2]}"
+        elif len(parts) == 2:
+            core = f"{parts[0]}+{parts[1]}"
+        else:
+            core = parts[0]
+        return f"[{core}+{k}]" if k else f"[{core}]"
+    if op.startswith("$"):
+        return op[1:]
+    return op
+
+
+def split_top_level(tok2):
+    out, cur, depth = [], "", 0
+    for ch_ in tok2:
+        if ch_ == "(":
+            depth += 1
+        elif ch_ == ")":
+            depth -= 1
+        if ch_ == "," and depth == 0:
+            out.append(cur)
+            cur = ""
+        else:
+            cur += ch_
+    out.append(cur)
+    return out
+
+
+def operands_ok(got, exp):
+    """operands of the real parse == reference normal form of the second token's operands (unprefixed lines only)"""
+    if exp[2] is None:
+        return got[3] == []
+    if exp[1] in PREFIX_WORDS or re.fullmatch(r"rex(\.[WRXB]+)?|\{[a-z0-9]+\}|bnd|notrack", exp[1] or ""):
+        return True
+    if "%st(" in exp[2]:
+        return True  # x87 stack registers are outside C09's list of forms
+    return got[3] == [reference_normal_form(o) for o in split_top_level(exp[2])]
+
+
 def extraction_ok(got, exp):
     """real parse_line result vs the grammar's intended (addr, first token, second token)"""
     if got[0] != "INS" or exp is None:
@@ -353,6 +401,10 @@ def sample_validation(run, prop):
             run.count("traces_validated_against_impl")
             ok = extraction_ok(got, exp)
             sepfree = got[0] != "INS" or not any(x in fld for fld in [got[1], got[2]] + list(got[3]) for x in (",", "|", "::"))
+            if ok and prop in ("C08", "C09", "C10") and cname.startswith("ops/") and not operands_ok(got, exp):
+                run.count("disagreements_replayed")
+                run.failure(f"sample/{cname}/OPERANDS", f"line {line!r}: operands {got[3]} are not the normal form of {exp[2]!r}", {"kind": "lx", "line": line, "segs": segs, "lemma": "OPERANDS"})
+                break
             if not ok:
                 run.count("disagreements_replayed")
                 run.failure(f"sample/{cname}", f"line {line!r}: expected addr={exp[0]!r} first token={exp[1]!r}, real parse -> {got}", {"kind": "lx", "line": line, "segs": segs, "lemma": "SAMPLE"})
@@ -417,6 +469,30 @@ def main_for(prop):
 
 
 # ------------------------------------------------------------------ property-specific extras
+def long_listing_parser_probe(run):
+    """Validation on a LONG listing (the symbolic lemmas are per line; the per-listing loop is only executed here):
+    70 000 instruction lines with labels, blanks and continuation lines interleaved must yield exactly the
+    instruction lines, in order."""
+    from vlib import jasmapi
+
+    n = 70000
+    lines, want = ["", "big:     file format elf64-x86-64", "", "Disassembly of section .text:", "", "0000000000400000 <f>:"], []
+    for i in range(n):
+        a = format(0x400000 + 3 * i, "x")
+        lines.append(f"  {a}:\t48 89 c3             \tmov    %rax,%rbx")
+        want.append(a)
+        if i % 9973 == 0:
+            lines.append(f"  {a}:\t00 00 ")          # continuation line
+            lines.append("")
+            lines.append(f"{int(a, 16) + 3:016x} <g{i}>:")
+    stream = jasmapi.parse_listing("\n".join(lines) + "\n")
+    got = [r.split("::", 1)[0] for r in stream.split("|") if r]
+    run.count("traces_validated_against_impl")
+    if got != want:
+        first = next((i for i, (x, y) in enumerate(zip(got, want)) if x != y), min(len(got), len(want)))
+        run.failure("long_listing/STREAM", f"listing of {n} instruction lines gave {len(got)} stream instructions; first difference at instruction #{first} (expected address {want[first] if first < len(want) else None})", {"kind": "lx_long", "n": n})
+
+
 def c08_extra(ctx):
     """filter chain: only Instructions with mnemonic != 'empty' reach the stream, in order (concrete, exhaustive over kinds)"""
     from vlib import jasmapi
@@ -432,6 +508,7 @@ def c08_extra(ctx):
         "Disassembly of section .fini:",
         "    100c:\tc3                   \tret",
     ]
+    long_listing_parser_probe(run)
     stream = jasmapi.parse_listing("\n".join(lines) + "\n")
     exp = "1000::mov,%rsp,%rbp,|1003::movabs,0x88b0a1a0004a00d3,%al,|100c::ret,,|"
     run.count("traces_validated_against_impl")
@@ -538,8 +615,60 @@ def c10_extra(ctx):
     ch.run_harnesses(run, hs)
 
 
+def presentation_edit_battery(run):
+    """Listing-level edits (the lemmas above are per line): headers, section lines, labels, blank lines, indentation,
+    annotations, comments and byte-column width are added / removed / changed on a base listing; the stream must not change."""
+    from vlib import jasmapi
+
+    ins = [("1000", "55", "push", "%rbp", ""), ("1001", "48 89 e5", "mov", "%rsp,%rbp", ""), ("1004", "e8 37 00 00 00", "call", "1040", " <helper>"),
+           ("1009", "48 8b 05 f0 2f 00 00", "mov", "0x2ff0(%rip),%rax", "        # 4000 <data>"), ("1010", "c3", "ret", "", ""),
+           ("1040", "55", "push", "%rbp", ""), ("1041", "48 89 e5", "mov", "%rsp,%rbp", ""), ("1044", "c3", "ret", "", "")]
+
+    def render(indent="    ", header=True, sections=(0, 5), labels=(0, 5), blanks=True, annotations=True, width=21, extra_header_mid=False, comment_all=False):
+        out = []
+        if header:
+            out += ["", "prog:     file format elf64-x86-64", ""]
+        for i, (a, b, m, o, t) in enumerate(ins):
+            if i in sections:
+                out += (["", ""] if blanks else []) + [f"Disassembly of section .s{i}:"] + ([""] if blanks else [])
+            if extra_header_mid and i == 3:
+                out += ["Disassembly of section .mid:"]
+            if i in labels:
+                out += [f"{int(a, 16):016x} <f{i}>:"]
+            tail = t if annotations else ""
+            if comment_all and not tail:
+                tail = "   # note"
+            text = f"{m:<6} {o}".rstrip() if o else m
+            out.append(f"{indent}{a}:\t{(b + ' ').ljust(width)}\t{text}{tail}")
+        return "\n".join(out) + "\n"
+
+    base = jasmapi.parse_listing(render())
+    variants = {
+        "no file-format header": dict(header=False),
+        "no section headers": dict(sections=()),
+        "first section header removed": dict(sections=(5,)),
+        "section header inserted mid-function": dict(extra_header_mid=True),
+        "no labels": dict(labels=()),
+        "labels everywhere": dict(labels=tuple(range(8))),
+        "no blank lines": dict(blanks=False),
+        "no indentation": dict(indent=""),
+        "deep indentation": dict(indent=" " * 12),
+        "no annotations/comments": dict(annotations=False),
+        "comments on every line": dict(comment_all=True),
+        "narrow byte column": dict(width=1),
+        "wide byte column": dict(width=40),
+        "headerless snippet": dict(header=False, sections=(), labels=(), blanks=False),
+    }
+    for name, kw in variants.items():
+        got = jasmapi.parse_listing(render(**kw))
+        run.count("traces_validated_against_impl")
+        if got != base:
+            run.failure(f"presentation/{name.replace(' ', '_')}", f"edit '{name}' changes the instruction stream: {got[:160]!r} vs {base[:160]!r}", {"kind": "lx_edit", "edit": name})
+
+
 def c16_extra(ctx):
     run = ctx.run
+    presentation_edit_battery(run)
     from checks import c18
     from vlib import ch
 
@@ -555,6 +684,9 @@ def c16_extra(ctx):
 
 
 def replay(rec):
+    if rec.get("kind") in ("lx_long", "lx_edit", "lx_stream"):
+        print("listing-level probe: re-run the check;", {k: v for k, v in rec.items() if k in ("edit", "n", "text")})
+        return 1
     line = rec["line"]
     got = real_parse(line)
     exp = intended(line, [tuple(x) for x in rec["segs"]]) if rec.get("segs") else None
@@ -566,6 +698,8 @@ def replay(rec):
         return 1 if got[0] == "INS" and got[2] != "empty" else 0
     if lemma == "SEPFREE":
         return 1 if got[0] == "INS" and any(x in got[2] for x in (",", "|", "::")) else 0
+    if lemma == "OPERANDS":
+        return 0 if operands_ok(got, exp) else 1
     if lemma == "SEPFREE-ANY":
         return 1 if got[0] == "INS" and any(x in f for f in [got[1], got[2]] + list(got[3]) for x in (",", "|", "::")) else 0
     return 0 if extraction_ok(got, exp) else 1
